@@ -30,7 +30,11 @@ Inductive op :=
 | OCopy (r : nat)                                      (* request.copy() : the copy gets the next index *)
 | OSetCL (r : nat) (v : Z)                             (* request['CONTENT_LENGTH'] = str(v) *)
 | OSetOther (r : nat)                                  (* request['CONTENT_TYPE' | 'HTTP_*' | 'QUERY_STRING' | ...] = ... *)
-| OSetInput (r : nat) (data : list N) (sc : list nat). (* request['wsgi.input'] = a new stream *)
+| OSetInput (r : nat) (data : list N) (sc : list nat)  (* request['wsgi.input'] = a new stream *)
+| OHandOn (r : nat) (k : option nat).                  (* the next consumer of the environ: after request.body
+     (which rewinds the buffered copy) the environ, without the 'ombott.*' cache keys, is handed to a second
+     Request — what a dispatcher passes to an application mounted behind this one — which at once reads its body
+     with read(k).  It finds the buffered copy under 'wsgi.input'.  The new request object gets the next index. *)
 
 Inductive out :=
 | OutBytes (b : list N)
@@ -38,6 +42,7 @@ Inductive out :=
 | OutUnit
 | OutErr                      (* the body was refused (BodySizeError -> 413), now or at an earlier access *)
 | OutBadReq                   (* no such request object: a harness error *)
+| OutNotBuffered              (* OHandOn on a request whose body is not buffered (yet, or refused): nothing is done *)
 | OutFuel.
 
 Definition take_opt (k : option nat) (l : list N) : list N :=
@@ -102,6 +107,29 @@ Definition step (w : world) (o : op) : world * out :=
       (mkWorld (w_streams w ++ [stream_init data sc])
                (set_nth r (mkReq (length (w_streams w)) None (r_cl rq) false) (w_reqs w)), OutUnit)
     end
+  | OHandOn r k =>
+    match nth_error (w_reqs w) r with
+    | None => (w, OutBadReq)
+    | Some rq =>
+      if r_failed rq then (w, OutNotBuffered)
+      else
+      match r_cache rq with
+      | None => (w, OutNotBuffered)
+      | Some c =>
+        (* environ['wsgi.input'] IS the buffered copy, rewound: a stream over c that hands over whatever is asked *)
+        match body_read_cl (stream_init c []) buf maxb (r_cl rq) with
+        | BDone body _ s' =>
+          (mkWorld (w_streams w ++ [s'])
+                   (w_reqs w ++ [mkReq (length (w_streams w)) (Some body) (r_cl rq) false]),
+           OutBytes (take_opt k body))
+        | BTooLarge s' =>
+          (mkWorld (w_streams w ++ [s'])
+                   (w_reqs w ++ [mkReq (length (w_streams w)) None (r_cl rq) true]),
+           OutErr)
+        | _ => (w, OutFuel)
+        end
+      end
+    end
   end.
 
 Fixpoint run (w : world) (ops : list op) : world * list out :=
@@ -118,8 +146,8 @@ Definition world_init (data : list N) (sc : list nat) (cl : Z) : world :=
 
 (* ---- correspondence interface (mode 1 of corr_C04_all) ----
    input : cl ; buf ; has_max ; max ; data ; sched ; ops   with op =
-           0 r hask k | 1 r | 2 r v | 3 r | 4 r data sched
-   output: one entry per op (0 bytes | 1 index | 2 | 3 | 4 refused | 9), then for every stream its final
+           0 r hask k | 1 r | 2 r v | 3 r | 4 r data sched | 5 r hask k
+   output: one entry per op (0 bytes | 1 index | 2 | 3 | 4 refused | 5 not buffered | 9), then for every stream its final
            position and its logged requests *)
 Definition dec_op (l : list Z) : option (op * list Z) :=
   match l with
@@ -127,6 +155,7 @@ Definition dec_op (l : list Z) : option (op * list Z) :=
   | 1%Z :: r :: t => Some (OCopy (Z.to_nat r), t)
   | 2%Z :: r :: v :: t => Some (OSetCL (Z.to_nat r) v, t)
   | 3%Z :: r :: t => Some (OSetOther (Z.to_nat r), t)
+  | 5%Z :: r :: hk :: k :: t => Some (OHandOn (Z.to_nat r) (if Z.eqb hk 0 then None else Some (Z.to_nat k)), t)
   | 4%Z :: r :: t =>
     match dec_str t with
     | Some (d, t1) =>
@@ -146,6 +175,7 @@ Definition enc_out (o : out) : list Z :=
   | OutUnit => [2%Z]
   | OutBadReq => [3%Z]
   | OutErr => [4%Z]
+  | OutNotBuffered => [5%Z]
   | OutFuel => [9%Z]
   end.
 
